@@ -28,9 +28,11 @@ RULE = ("Part 'configs' enumerates EXHAUSTIVELY the finite product root kind (pl
         "caller's thread and no thread is started; a loop-requiring node with nothing declared "
         "or inherited uses the shared background loop (_io_loops[-1]). Non-trivial: the "
         "configuration mixes >= 2 declared modes/loops or contains a loop-requiring node.")
-ASSUMPTIONS = ["asynchronous=None and asynchronous=False are the same *effective* mode "
+ASSUMPTIONS = ["part 'dask-default-client' runs with an in-process dask Client as default client; "
+               "all other parts without one",
+               "asynchronous=None and asynchronous=False are the same *effective* mode "
                "(blocking); only True vs not-True is compared between nodes",
-               "no dask default client exists in the checking process"]
+               ]
 
 NEEDS = ["buffer", "delay", "rate_limit", "timed_window", "timed_window_unique", "partition",
          "latest", "map_async"]
@@ -349,5 +351,41 @@ def chain_case(draw, tier="quick"):
     return {"pipes": pipes}
 
 
+def enumerate_with_client(tier):
+    for rk in ROOTS:
+        yield {"with_client": True, "root": rk, "child": None}
+        for ck in ("buffer", "timed_window", "map"):
+            yield {"with_client": True, "root": rk, "child": ck}
+
+
+def execute_with_client(case):
+    """asynchronous=True must bind the caller's loop even when a (blocking) dask client is the
+    default client; only undeclared loop-requiring nodes may use the client's loop"""
+    from props.c20 import client
+    c = client()
+    v = []
+    with install() as vloop:
+        env = {"current": IOLoop.current(), "other": None}
+        root = make_root(case["root"], True, "none", env)
+        node = root
+        if case["child"] == "map":
+            node = root.map(lambda x: x)
+        elif case["child"]:
+            par = root.map(lambda x: x) if case["root"] == "from_textfile" else root
+            node = make_child(par, case["child"], None, "none", env)
+        for n in pipeline_nodes(node):
+            if n.loop is not env["current"]:
+                where = "the dask client's loop" if n.loop is c.loop else repr(n.loop)
+                v.append(("%s:async-bound-to-dask-client-loop" % ID,
+                          "%s(asynchronous=True)%s with a default dask client: %s is bound to %s, "
+                          "not to the caller's current loop" % (
+                              case["root"], "." + case["child"] if case["child"] else "",
+                              type(n).__name__, where)))
+                break
+    return Result(v, nontrivial=True, classes=["dask-default-client"])
+
+
 PARTS = [Part("configs", None, execute, quick=0, thorough=0, shards=1, exhaustive=enumerate_configs),
+         Part("dask-default-client", None, execute_with_client, quick=0, thorough=0, shards=1,
+              exhaustive=enumerate_with_client),
          Part("chains", chain_case, execute, quick=600, thorough=4000, shards=8)]
